@@ -64,6 +64,51 @@ CHECKS = {
   "Every state of depth below the bound of store worlds (all kinds) and sketch worlds (both variants) receives Reweight(w), w in {2^-10, 1/2, 1, 2, 3}; the content after must be exactly the content before with every weight scaled (stores: all observers; sketches: bins, zero weight, count, exact sum scaled, exact extremes unchanged).",
   "Model-free (the expectation is the real content before the call, scaled). Not covered: non-dyadic weights or factors.",
   "DESIGN.md section 4 C16"),
+ "C03": ("exploration",
+  "exhaustive enumeration of the bin-edge lattice of every mapping (every bin +-ulps, exact Index steps by bisection, binades, range ends, T-bit lattice)",
+  "For 3 mapping kinds x 10 (13 thorough) accuracies x 13 index offsets, every bin of the indexable range is probed at its lower bound +-2 ulps and at the exact float where Index steps (found by bisection on the bit pattern), plus every binade boundary, both range ends and a T-bit significand lattice; accuracy, monotonicity, containment, int32 range and reported accuracy are checked at each of ~6e8 points (quick). Bounded-exhaustive over the stated lattice, not a proof over all floats.",
+  "Trusted: the tolerance policy (DESIGN.md section 5). Not covered: floats strictly between lattice points (an interior violation would need Index to be off by a whole bin, which the T-bit lattice samples densely in every binade).",
+  "DESIGN.md section 4 C03"),
+ "C06": ("model_checking",
+  "explicit-state BFS builds the corpus of sketch states; each is encoded/decoded into every store kind and composed with merging, vs reference content",
+  "Every distinct state of bounded two-slot sketch histories (five producer store kinds, both variants) is encoded (mapping embedded/omitted, nil buffer / prefixed buffer), decoded into five target store kinds and compared bin for bin with the reference (folded for bounded targets); decode-into-non-empty is compared with MergeWith, concatenations with merges; Encode must be append-only and pure.",
+  "Trusted: the reference content and folding. Not covered: weights that do not survive the +1/-1 transform (excluded by the property).",
+  "DESIGN.md section 4 C06"),
+ "C07": ("model_checking",
+  "corpus encodings parsed by an independent decoder written from the documentation; grammar-generated streams decoded by the implementation",
+  "Direction 1: every encoding of the BFS corpus is parsed by refwire (written only from the comments of flag.go/encoding.go) and must yield the same content; the plain decoder must accept exact-variant encodings. Direction 2: every well-formed stream of the documented grammar within stated bounds (~1e5 streams quick) is decoded by the implementation into five store kinds and compared with the documented meaning.",
+  "Trusted: refwire as a faithful reading of the documentation. Not covered: streams beyond the grammar bounds (more than 2 store blocks, more than 3 bins per block).",
+  "DESIGN.md section 4 C07"),
+ "C08": ("fault_enumeration",
+  "every truncation point and every undefined flag at every block boundary of every corpus encoding; all mapping mismatches",
+  "For every encoding of the BFS corpus: every cut point is decoded by three consumer store kinds (and into a non-empty receiver) and must be an error strictly inside a block and exactly the complete blocks on a boundary (boundaries from refwire); all 240 undefined flag bytes are substituted at every block boundary once per distinct flag sequence; every ordered pair of distinct mappings as (receiver, stream) must be refused; no panic.",
+  "Trusted: refwire's block boundaries. Not covered: multi-byte corruptions other than truncation and single-flag substitution.",
+  "DESIGN.md section 4 C08"),
+ "C09": ("model_checking",
+  "BFS corpus through ToProto/Marshal/Unmarshal/FromProto for every store kind pair; streaming writer vs message; hand-built mixed messages enumerated",
+  "Every distinct state of bounded plain-sketch histories (five producer store kinds) is converted to a message, marshalled, unmarshalled and rebuilt with five store kinds (bins bit for bit, equal mapping); the streaming writer's bytes must unmarshal to a message proto.Equal to ToProto(); hand-built messages mixing sparse and contiguous bins are enumerated.",
+  "Trusted: google.golang.org/protobuf for Marshal/Unmarshal/Equal. Not covered: messages with more than two addends per index.",
+  "DESIGN.md section 4 C09"),
+ "C17": ("exploration",
+  "exhaustive enumeration of conversions (mapping pairs x scales incl. bin-aligned x stores x variants x single-bin and small sources)",
+  "All ordered pairs of mappings of the grid (plus integer offset shifts of the same base, which align bins exactly) x 11 scales x store kind pairs x both variants x every single-bin source of a window and small multi-bin sources; each conversion is judged on source purity, carried mapping, zero weight, weight conservation, absence of negative bins, overlap, the composed accuracy bound on quantiles, identity = copy, and rescaled exact statistics.",
+  "Trusted: the composed bound (1-a2)/(1+a1) <= y/(s x) <= (1+a2)/(1-a1). Not covered: sources outside [2e-3, 5e2] or scales outside [1e-3, 1e3].",
+  "DESIGN.md section 4 C17"),
+ "C18": ("exploration",
+  "exhaustive enumeration of byte strings (all strings <= 3 bytes, boundary alphabets to length 8-12) and of structured values through the codecs",
+  "Every byte string of length <= 3 (4 thorough) and boundary-alphabet strings up to length 8 (10) go through the four variable-length decoders and are compared with independent readers written from the documentation; every unsigned value below 2^24 and every structured 64-bit value goes through encoders, size functions, decoders with trailing paddings and every strict prefix.",
+  "Trusted: the independent readers. Not covered: byte strings of length 5..9 outside the boundary alphabets.",
+  "DESIGN.md section 4 C18"),
+ "C19": ("exploration",
+  "351 mappings through three serialised forms; all 351^2 ordered pairs for the equality laws",
+  "Each of 351 mappings (3 kinds x 13 accuracies x 9 offsets) goes through the binary form, the protobuf message and the streaming protobuf writer; the mapping read back must be Equals both ways and behave identically on a probe lattice; all ordered pairs are checked for reflexivity, symmetry, inequality across kinds and clearly different accuracies, and equal-implies-same-indexes.",
+  "Trusted: google.golang.org/protobuf. Behavioural identity is probed on a finite lattice.",
+  "DESIGN.md section 4 C19"),
+ "C20": ("model_checking",
+  "explicit-state BFS over histories of two datasets (add, lazy-sorting queries, merge) vs sorted slice; frame clause",
+  "Every bounded history of Add / queries (which sort lazily) / Merge on two real datasets; every distinct concrete state (incl. the private sorted flag and current value order) is compared with a sorted slice on count, extremes, sum and lower/upper quantiles at every q of Q(n) and out-of-range q; queries must not change any answer.",
+  "Trusted: the sorted-slice reference. Not covered: histories deeper than the bound; NaN inputs.",
+  "DESIGN.md section 4 C20"),
 }
 
 NOT_YET = "check not built yet in this round (work in progress; will be claimed once its machinery exists)"
